@@ -28,7 +28,7 @@ class Gen:
         self.coeffs = {}     # shape -> [Coefficient]
         self.idxpool = [ufl.Index() for _ in range(4)]
         self.idxdim = {i: d for i, d in zip(self.idxpool, [2, 3, 2, 3])}   # every Index object has one extent
-        for sh in [(), (), (gdim,), (gdim,), (gdim, gdim), (gdim, gdim), (3,), (2, 3), (2, 2, 2)]:
+        for sh in [(), (), (2,), (3,), (gdim,), (2, 2), (3, 3), (gdim, gdim), (2, 3), (3, 2), (2, 2, 2)]:
             V = ufl.FunctionSpace(self.mesh, LagrangeElement(cell, 2, sh))
             self.coeffs.setdefault(sh, []).append(ufl.Coefficient(V))
         self.consts = {(): [ufl.Constant(self.mesh)], (gdim,): [ufl.VectorConstant(self.mesh)]}
